@@ -10,7 +10,8 @@ MANIFEST = {
              "dft_recursive / dft_iterative, bfs / dfs_recursive / dfs_iterative, basic_render, render_to_plantuml_src "
              "incl. user_render_func, make_pyvis_net, pyvis_render_customizable) over a symbolic graph and universe, "
              "caching on or off, with every user call-back an uninterpreted function that raises at its k-th invocation "
-             "for a SYMBOLIC k (so every fault point, and no fault, are covered by one query). Around a fault-free call "
+             "for a SYMBOLIC k (so every fault point, and no fault, are covered by one query; the fault is an Exception "
+             "subclass or, in extra configurations, a BaseException that is not one). Around a fault-free call "
              "and around the faulty call the snapshot of every pool object (ordered links / ends / members / universes "
              "and the set of attribute names with the values of all non-cache attributes) must be unchanged; the call "
              "repeated with the well-behaved call-back must return the fault-free answer; afterwards every cached "
